@@ -81,6 +81,9 @@ type vAttempt struct {
 	ok     bool
 	layers []vLayer // outermost first: the primary chain the generator starts from
 	tree   *vErr    // the error actually returned (the chain, possibly combined with other errors)
+	// the exporter call does not abort when its context ends (a slow client that ignores cancellation): its answer
+	// still arrives after dur, however late
+	ignoreCtx bool
 }
 
 type vScenario struct {
@@ -229,7 +232,7 @@ func vSim(sc *vScenario) *vIdeal {
 		}
 		done := vOptMin(vOptMin(sc.deadline, tdl), sc.cancel)
 		e, ok, layers := s+a.dur, a.ok, a.tree
-		if done >= 0 {
+		if done >= 0 && !a.ignoreCtx {
 			if !(done == 0 && s == 0) {
 				m(done, e)
 				if sc.deadline >= 0 && sc.deadline <= s+vMargin {
@@ -474,6 +477,11 @@ func vGenScript(r *vRand, sc *vScenario, durs []int64, maxLen int, thr []int64) 
 				cur = rem
 			}
 		}
+		// some exporter calls ignore cancellation; more often those that outlast the per-attempt timeout, so that
+		// answers (also successes and permanent errors) arriving AFTER the timeout are part of the space
+		if r.Intn(5) == 0 || (sc.timeout != 0 && a.dur > sc.timeout && r.Bool()) {
+			a.ignoreCtx = true
+		}
 		sc.script = append(sc.script, a)
 	}
 	// the run always terminates inside the script: three short successes at the end
@@ -512,6 +520,20 @@ func vGenF1(r *vRand) (*vScenario, *vIdeal) {
 			sc.stop = int64(r.Intn(700)) * vMs
 		}
 		vGenScript(r, sc, []int64{5 * vMs, 10 * vMs, 20 * vMs, 40 * vMs, 10 * vMs, 160 * vMs, 230 * vMs}, 6, []int64{10, 30, 90, 150, 260, 120, 200, 20, 400})
+		// with some context end configured (per-attempt timeout, caller deadline, cancellation): sometimes make one of
+		// the first attempts a slow call that ignores cancellation and whose answer — a success, a permanent error or
+		// whatever was scripted — therefore arrives AFTER that context end
+		if (sc.timeout != 0 || sc.deadline >= 0 || sc.cancel >= 0) && r.Intn(4) == 0 {
+			a := &sc.script[r.Intn(min(3, len(sc.script)))]
+			a.ignoreCtx, a.dur = true, vPickMs(r, 160, 230, 300)
+			switch r.Intn(4) {
+			case 0, 1:
+				a.ok, a.layers, a.tree = true, nil, nil
+			case 2:
+				a.ok, a.layers = false, []vLayer{{code: 4}, {code: 0}}
+				a.tree = vChain(a.layers)
+			}
+		}
 		id := vSim(sc)
 		if id.verdict == 7 || id.margin < vMargin || id.total > vMaxTotal || (id.waits > 0 && id.minDelay < vMinDelay) {
 			continue
@@ -594,6 +616,7 @@ type vCall struct {
 	offSched   bool
 	lateWake   int64
 	afterStop  bool // Shutdown had already RETURNED when this call started
+	lateAnswer bool // the scripted answer was returned although the call's context had already ended
 }
 
 type vObs struct {
@@ -707,20 +730,26 @@ func (e vClaimErr) As(target any) bool {
 	switch t := target.(type) {
 	case *consumererror.Logs:
 		if e.n.cSig == 0 {
-			*t = consumererror.NewLogs(e.inner, vLogs(e.n.rem)).(consumererror.Logs)
-			return true
+			if v, ok := consumererror.NewLogs(e.inner, vLogs(e.n.rem)).(consumererror.Logs); ok {
+				*t = v
+				return true
+			}
 		}
 		return false
 	case *consumererror.Traces:
 		if e.n.cSig == 1 {
-			*t = consumererror.NewTraces(e.inner, vTraces(e.n.rem)).(consumererror.Traces)
-			return true
+			if v, ok := consumererror.NewTraces(e.inner, vTraces(e.n.rem)).(consumererror.Traces); ok {
+				*t = v
+				return true
+			}
 		}
 		return false
 	case *consumererror.Metrics:
 		if e.n.cSig == 2 {
-			*t = consumererror.NewMetrics(e.inner, vMetrics(e.n.rem)).(consumererror.Metrics)
-			return true
+			if v, ok := consumererror.NewMetrics(e.inner, vMetrics(e.n.rem)).(consumererror.Metrics); ok {
+				*t = v
+				return true
+			}
 		}
 		return false
 	}
@@ -867,16 +896,21 @@ func vRunOnce(sc *vScenario, id *vIdeal) (*vObs, error) {
 		}
 		tm := time.NewTimer(wait)
 		var err error
+		ctxDone := ctx.Done()
+		if a.ignoreCtx {
+			ctxDone = nil // never ready: the call runs to its end
+		}
 		select {
 		case <-tm.C:
 			c.lateWake = int64(time.Since(t0)) - target
+			c.lateAnswer = ctx.Err() != nil
 			if a.ok {
 				c.ok = true
 			} else {
 				c.e = a.tree
 				err = vBuildErr(a.tree, vBaseErr)
 			}
-		case <-ctx.Done():
+		case <-ctxDone:
 			tm.Stop()
 			c.ctxErr = true
 			err = ctx.Err()
@@ -1213,6 +1247,9 @@ func vScriptTerm(sc *vScenario) string {
 		if !a.ok {
 			ls = vTokens(a.tree, nil)
 		}
+		if a.ignoreCtx {
+			ls = append([]string{vPair(vZ(8), "[]")}, ls...)
+		}
 		it[i] = vPair(vZ(a.dur), vList(ls))
 	}
 	return vList(it)
@@ -1296,6 +1333,7 @@ func vGenFailures(r *vRand, sc *vScenario, n int, dur0 int64, first int) {
 				a.layers = []vLayer{{code: 1, d: vPickMs(r, thr...)}}
 			}
 		}
+		a.ignoreCtx = r.Intn(5) == 0
 		if !a.ok {
 			a.tree = vCombine(r, sc, a.layers, cur, thr, !(i == 0 && first == 2))
 			if rem, has := vPartial(sc.sig, a.tree); has {
@@ -1449,16 +1487,21 @@ func vRunGroup(g *vGroup) (all []*vObs, stopAt []int64, unstable bool, rerr erro
 		} else {
 			a := sc.script[k]
 			tm := time.NewTimer(time.Duration(a.dur))
+			ctxDone := ctx.Done()
+			if a.ignoreCtx {
+				ctxDone = nil
+			}
 			select {
 			case <-tm.C:
 				c.lateWake = int64(time.Since(t0[i])) - (c.start + a.dur)
+				c.lateAnswer = ctx.Err() != nil
 				if a.ok {
 					c.ok = true
 				} else {
 					c.e = a.tree
 					err = vBuildErr(a.tree, obs.base)
 				}
-			case <-ctx.Done():
+			case <-ctxDone:
 				tm.Stop()
 				c.ctxErr = true
 				err = fmt.Errorf("%w #r%d#", ctx.Err(), i) // marked, so that the logged delay can be attributed
@@ -1668,6 +1711,12 @@ func vEmit(out *vOut, sc *vScenario, obs *vObs, cancelAt, stopAt int64) {
 			}, 0)
 		}
 		out.Stat(fmt.Sprintf("deadline_class_%d", c.dlClass), 1)
+		if c.lateAnswer {
+			out.Stat("answers_after_the_attempt_context_ended", 1)
+			if c.ok || vIsPerm(c.e) {
+				out.Stat("verdicts_after_the_attempt_context_ended", 1)
+			}
+		}
 	}
 	if !sc.enabled {
 		out.Stat("retry_disabled", 1)
